@@ -23,7 +23,7 @@ RULE = ("scenarios: job document / project document writes (old document absent,
         "write of the v1->v2 migration, Project.update_cache() on growing and shrinking workspaces (3..400 jobs; "
         "gzip stream in several chunks), update_cache() with an injected OSError at every call of the stream "
         "(clean-up branch), and the raw JSON backend with write_concern False/True; each with JSON thread support "
-        "ON and OFF.  Per write episode (open .. rename/close) one case: the interposer's mutation trace "
+        "forced ON, forced OFF and AS SHIPPED (the class flags a fresh `import signac` of the tree under test leaves).  Per write episode (open .. rename/close) one case: the interposer's mutation trace "
         "(self-checked by replay), every crash prefix x torn offset {1, mid, len-1} materialised and the target "
         "read back with the real json / gzip+json loaders, a reader (real descriptors) opened at every position and "
         "read at every later position, a forked signac reader at every position.  Write episodes are formed per open "
@@ -31,7 +31,7 @@ RULE = ("scenarios: job document / project document writes (old document absent,
         "entry of the descriptor); any entry on a document/cache/temp name outside the episodes, any entry the model "
         "translation does not consume, a failed replay self-check, a scenario without a write and a fault-case count "
         "different from the try body's length are emitted as mismatching cases; input_distribution['scenarios-"
-        "attempted'] counts scenarios (quick 76, thorough 144), every scenario yields >= 1 case or a harness error.  non-trivial: the old file "
+        "attempted'] counts scenarios (quick 126, thorough 216), every scenario yields >= 1 case or a harness error.  non-trivial: the old file "
         "exists or the write has >= 1 chunk of >= 2 bytes; distinct by (scenario, episode)")
 TRUSTED = [
     "os.replace is atomic w.r.t. concurrent open; a crash preserves the order of completed calls; an open file keeps its inode",
@@ -575,7 +575,7 @@ def run_scenario(desc, work):
             for e in before_entries:
                 if is_tmp_of(e, base):
                     old_names.append((1, [2]))
-            cases.append(emit(desc, site, thr, old_names, chunks, None, steps, crash, rd, final,
+            cases.append(emit(desc, site, thr_model, old_names, chunks, None, steps, crash, rd, final,
                               {"episode": [a, b, norm_tmp(t)], "trace": [o.brief() for o in ops],
                                "broken": broken + ["not consumed by the model translation: " + u for u in unconsumed],
                                "old_len": None if old_b is None else len(old_b), "new_len": len(new_b or b"")},
@@ -616,7 +616,7 @@ def run_scenario(desc, work):
                     for e in before_entries:
                         if is_tmp_of(e, base):
                             old_names.append((1, [2]))
-                    cases.append(emit(dict(desc, fault=pos), site, thr, old_names, chunks, pos, steps, [], [], (cls, ex),
+                    cases.append(emit(dict(desc, fault=pos), site, thr_model, old_names, chunks, pos, steps, [], [], (cls, ex),
                                       {"fault_at": pos, "raised": type(exc).__name__ if exc else None,
                                        "trace": [o.brief() for o in opsf],
                                        "broken": ([] if exc is not None else ["no exception raised"])
@@ -626,12 +626,12 @@ def run_scenario(desc, work):
                 # one fault case per call of the model's try body [open; append...; close]
                 _, ch, _ = to_wsteps(muts[a:b + 1], name_map(t, [o.path for o in muts[a:b + 1]]), ep_fid[(a, b, t)])
                 if len(cases) - nfault0 != len(ch) + 2:
-                    cases.append(emit(desc, site, thr, [], [], None, [], [], [], ("ONew", []),
+                    cases.append(emit(desc, site, thr_model, [], [], None, [], [], [], ("ONew", []),
                                       {"episode": [a, b, norm_tmp(t)], "trace": [o.brief() for o in muts[a:b + 1]],
                                        "broken": ["%d fault cases for a try body of %d calls" % (len(cases) - nfault0, len(ch) + 2)]},
                                       nontrivial=False, force_mismatch=True))
         if not eps:
-            cases.append(emit(desc, site, thr, [], [], None, [], [], [], ("ONew", []),
+            cases.append(emit(desc, site, thr_model, [], [], None, [], [], [], ("ONew", []),
                               {"episode": None, "trace": [o.brief() for o in muts], "broken": broken + ["no document/cache write observed"]},
                               nontrivial=False, force_mismatch=True))
     finally:
@@ -643,13 +643,13 @@ def run_scenario(desc, work):
     return cases
 
 
-def emit(desc, site, thr, old_names, chunks, fault, steps, crash, rd, final, obs, nontrivial, force_mismatch=False):
+def emit(desc, site, thr_model, old_names, chunks, fault, steps, crash, rd, final, obs, nontrivial, force_mismatch=False):
     if obs.get("broken") or force_mismatch:
         # an unobserved mutation / non-reproducible trace: make the case mismatch instead of accepting it
         steps = steps + ["(WUnlink 0%N)", "(WOpen 3%N)"]
     coq = ("{| k_site := %s; k_thread := %s; k_old := %s; k_chunks := %s; k_fault := %s; k_steps := %s; "
            "k_crash := %s; k_reader := %s; k_final := %s |}") % (
-        site, coq_bool(thr),
+        site, coq_bool(thr_model),
         coq_list(["(%s, %s)" % (coq_N(n), coq_bytes(c)) for n, c in old_names], "(N * bytes)"),
         coq_list([coq_bytes(c) for c in chunks], "bytes"),
         coq_opt(None if fault is None else coq_nat(fault)),
@@ -659,7 +659,8 @@ def emit(desc, site, thr, old_names, chunks, fault, steps, crash, rd, final, obs
         "(%s, %s)" % (final[0], coq_bytes(final[1])))
     obs = dict(obs, site=site, crash=sorted({"%s%s" % (o, e) for o, e in crash}), reader=sorted(set(rd)), final=list(final),
                ncrash=len(crash), nreader=len(rd))
-    kinds = [desc["kind"], "threads-on" if thr else "threads-off"] + (["fault"] if fault is not None else [])
+    cfg = desc.get("threads", True)
+    kinds = [desc["kind"], "threads-shipped" if cfg == "shipped" else ("threads-on" if cfg else "threads-off")] + (["fault"] if fault is not None else [])
     key = json.dumps([desc, obs.get("episode"), fault], sort_keys=True, default=str)
     return Case(coq, desc, obs=obs, nontrivial=nontrivial, key=key, kinds=kinds)
 
@@ -672,7 +673,9 @@ def run_case(desc):
 def gen_inputs(tier, rng):
     descs = []
     quick = tier == "quick"
-    for thr in (True, False):
+    # three configurations of the JSON backend's thread support: forced ON, forced OFF, and AS SHIPPED (the flags a
+    # fresh `import signac` of the tree under test sets up, read once in a fresh interpreter and re-established as is)
+    for thr in (True, False, "shipped"):
         for kind in ("jobdoc", "projectdoc"):
             for old in ("absent", "empty", "small", "large") + (() if quick else ("huge",)):
                 for new in ("small", "large") + (() if quick else ("empty", "huge")):
@@ -713,4 +716,8 @@ def gen_inputs(tier, rng):
         for n0, n1, rem, stale in caches:
             descs.append({"kind": "cache", "threads": thr, "n0": n0, "n1": n1, "remove": rem, "stale_tmp": stale,
                           "salt": "%06d" % rng.randint(0, 999999), "faults": True})
+    flags = shipped_threads()
+    for d in descs:
+        if d["threads"] == "shipped":
+            d["shipped_flags"] = list(flags)
     return descs
